@@ -214,3 +214,97 @@ def multi_resp_spec(ops):
                 r["description"] = o["desc"]
         s["paths"][o["path"]] = item
     return s
+# ---------------------------------------------------------------------------------------------
+# C14: discriminator configurations
+def _ref(n):
+    return {"$ref": "#/components/schemas/" + n}
+
+
+def _tagprop(tp):
+    """tp: ["plain"] | ["const", v] | ["enum", [v…]] | ["ref", schemaName]"""
+    k = tp[0]
+    if k == "plain":
+        return {"type": "string"}
+    if k == "const":
+        return {"type": "string", "const": tp[1]}
+    if k == "enum":
+        return {"type": "string", "enum": list(tp[1])}
+    if k == "ref":
+        return _ref(tp[1])
+    raise ValueError(k)
+
+
+def own_field(name):
+    return "f" + "".join(c for c in name.lower() if c.isalnum())
+
+
+def disc_spec(d):
+    """d: {"schemas":[…], "ops":[{"id","uses"}]}  (primary data of a C14 case) -> OpenAPI 3.1 document.
+    schema kinds:
+      {"k":"leaf","name", "tagname"?, "tag"?: tagprop, "tagreq"?:bool, "ownreq"?:bool, "apfalse"?:bool,
+       "parents"?:[names], "form"?: "inline"|"own"}
+      {"k":"union","name","kind":"oneOf"|"anyOf","members":[names],"disc":{"prop","mapping":None|[[tag,target]…]}}
+      {"k":"base","name","tag"?: tagprop,"disc":{"prop","mapping":[[tag,target]…]}}
+      {"k":"strenum","name","values":[…]}
+    raises ValueError when a reference dangles (shrinking may produce that)."""
+    names = [s["name"] for s in d["schemas"]]
+    if len(set(names)) != len(names):
+        raise ValueError("duplicate schema name")
+
+    def need(n):
+        if n not in names:
+            raise ValueError("dangling " + n)
+        return n
+
+    S = {}
+    for s in d["schemas"]:
+        n, k = s["name"], s["k"]
+        if k == "leaf":
+            props, req = {}, []
+            if s.get("tag") is not None:
+                if s["tag"][0] == "ref":
+                    need(s["tag"][1])
+                props[s["tagname"]] = _tagprop(s["tag"])
+                if s.get("tagreq", True):
+                    req.append(s["tagname"])
+            props[own_field(n)] = {"type": "integer"}
+            if s.get("ownreq"):
+                req.append(own_field(n))
+            o = {"type": "object", "properties": props}
+            if req:
+                o["required"] = req
+            if s.get("apfalse"):
+                o["additionalProperties"] = False
+            if s.get("parents"):
+                refs = [_ref(need(p)) for p in s["parents"]]
+                if s.get("form", "inline") == "inline":
+                    o = {"allOf": refs + [o]}
+                else:
+                    o = dict(o, allOf=refs)
+            S[n] = o
+        elif k == "union":
+            if not s["members"]:
+                raise ValueError("empty union")
+            o = {s["kind"]: [_ref(need(m)) for m in s["members"]]}
+            dd = {"propertyName": s["disc"]["prop"]}
+            if s["disc"].get("mapping") is not None:
+                dd["mapping"] = {t: "#/components/schemas/" + need(x) for t, x in s["disc"]["mapping"]}
+            o["discriminator"] = dd
+            S[n] = o
+        elif k == "base":
+            p = s["disc"]["prop"]
+            S[n] = {"type": "object", "required": [p], "properties": {p: _tagprop(s.get("tag") or ["plain"]), own_field(n): {"type": "integer"}},
+                    "discriminator": {"propertyName": p, "mapping": {t: "#/components/schemas/" + need(x) for t, x in s["disc"]["mapping"]}}}
+        elif k == "strenum":
+            S[n] = {"type": "string", "enum": list(s["values"])}
+        else:
+            raise ValueError(k)
+    paths = {}
+    for i, op in enumerate(d["ops"]):
+        o = {"operationId": op["id"], "responses": {"200": {"description": "d"}}}
+        if op.get("uses"):
+            need(op["uses"])
+            o["requestBody"] = {"content": {"application/json": {"schema": _ref(op["uses"])}}}
+            o["responses"]["200"]["content"] = {"application/json": {"schema": _ref(op["uses"])}}
+        paths["/p%d" % i] = {"post": o}
+    return {"openapi": "3.1.0", "info": {"title": "t", "version": "1"}, "paths": paths, "components": {"schemas": S}}
